@@ -10,6 +10,7 @@
 #include <algorithm>
 #include <cerrno>
 #include <cmath>
+#include <deque>
 #include <functional>
 #include <map>
 #include <set>
@@ -42,6 +43,7 @@ struct RunOpts {
 	bool cap_check = true;
 	bool timer_duration_check = false; // C14
 	bool allow_timer_join = false;
+	bool ws_check = true;      // C12/C13: handshake answers, close statuses, pongs
 	bool allow_reset_join = false; // a reset racing with deliveries to that connection is a fault (C05/C11 domain)
 	std::set<std::string> ignore_rules; // known findings suppressed by rule id
 };
@@ -94,6 +96,11 @@ struct CConn {
 	bool ended_this_step = false;
 	bool model_connected = false; bool local = true;
 	bool poisoned = false;   // a truncated frame was sent: nothing meaningful can follow on this stream
+	bool hs_truncated = false; // the HTTP request was cut short (no terminating empty line was sent)
+	std::set<int> expect_close; // after a violating/closing frame: acceptable close statuses (-1 any)
+	bool expect_close_armed = false;
+	std::deque<std::string> expect_pongs;
+	size_t ctrl_checked = 0;
 	bool faulty = false;     // full send path or failing socket (C11): it may be dropped, others must not notice
 	bool unchecked = false;  // output is not compared with the model any more (slow reader, poisoned stream)
 	std::string ws_key;
@@ -190,6 +197,22 @@ public:
 	}
 
 	// ------------------------------------------------------------------ sending
+	std::deque<std::pair<int, std::string>> pending_tails; // second halves of split deliveries
+	bool step_single = false;
+	void deliver(int kc, const std::string &bytes)
+	{
+		if (sc.dribble != 0 && step_single && bytes.size() >= 2) {
+			uint64_t h = (uint64_t)sc.dribble * 0x9E3779B97F4A7C15ull + step_no * 0xC2B2AE3D27D4EB4Full + bytes.size(); h ^= h >> 31;
+			size_t cut = 1 + (size_t)(h % (bytes.size() - 1));
+			if (sc.dribble % 3 == 1) cut = std::min<size_t>(cut, 1 + h % 6); // often inside the length prefix / frame header
+			simk::K().send(kc, bytes.substr(0, cut));
+			pending_tails.push_back({kc, bytes.substr(cut)});
+			vd.stat["split_deliveries"]++;
+			return;
+		}
+		simk::K().send(kc, bytes);
+	}
+
 	std::string frame_for(const CConn &c, const std::string &payload)
 	{
 		if (!c.ws) return codec::raw_frame(payload);
@@ -245,7 +268,7 @@ public:
 		CConn &c = cc[ci];
 		if (batch_sink) { batch_sink->push(v); return; }
 		std::string txt = js::dump(v);
-		simk::K().send(c.kc, frame_for(c, txt));
+		deliver(c.kc, frame_for(c, txt));
 		ModelEvent e; e.k = ModelEvent::MESSAGE; e.conn = ci; e.msg = v; e.seq = evs.size();
 		if (txt.size() > max_message_size) { e.k = ModelEvent::INVALID; vd.labels.insert("over-long-message"); } // above the configured maximum: the connection ends
 		evs.push_back(e);
@@ -290,7 +313,17 @@ public:
 			c.ws_key = codec::base64(std::string(keybuf, 16));
 			cc.push_back(c);
 			int ci = (int)cc.size() - 1;
-			if (c.ws) k.send(c.kc, handshake_text(cc[ci], op.c));
+			if (c.ws) {
+				std::string hs = op.s.empty() ? handshake_text(cc[ci], 0) : op.s;
+				if (!op.s.empty()) {
+					cc[ci].handshake_valid = !(op.c & 1);
+					size_t kp = hs.find("Sec-WebSocket-Key: ");
+					if (kp != std::string::npos) { size_t ke = hs.find("\r\n", kp); cc[ci].ws_key = hs.substr(kp + 19, ke == std::string::npos ? std::string::npos : ke - kp - 19); }
+					if (op.d > 0 && (size_t)op.d < hs.size()) { hs.resize((size_t)op.d); cc[ci].hs_truncated = true; cc[ci].handshake_valid = false; cc[ci].poisoned = true; }
+					vd.labels.insert(cc[ci].handshake_valid ? "handshake:valid-variant" : cc[ci].hs_truncated ? "handshake:truncated" : "handshake:invalid");
+				}
+				k.send(c.kc, hs);
+			}
 			ModelEvent e; e.k = ModelEvent::CONNECTED; e.conn = ci; e.seq = evs.size();
 			e.local = c.transport == 2 || origin == simk::OR_V4MAPPED_LOOPBACK || origin == simk::OR_V6_LOOPBACK;
 			evs.push_back(e);
@@ -526,12 +559,36 @@ public:
 			uint32_t mk = (uint32_t)(op.d * 2654435761u + 77);
 			f.mask[0] = mk; f.mask[1] = mk >> 8; f.mask[2] = mk >> 16; f.mask[3] = mk >> 24;
 			if (!c.ws) { vd.stat["noop"]++; return; }
-			k.send(c.kc, codec::ws_encode(f));
+			deliver(c.kc, codec::ws_encode(f));
 			{
 				bool control = f.opcode >= 8;
 				bool reserved = (f.opcode >= 3 && f.opcode <= 7) || f.opcode >= 0xB;
 				ModelEvent e; e.conn = ci; e.seq = evs.size(); e.k = ModelEvent::INVALID;
 				bool violation = !f.masked || f.rsv != 0 || reserved || (control && !f.fin) || (control && f.payload.size() > 125);
+				// statuses RFC 6455 assigns to what this frame does wrong (several may apply: either is fine)
+				std::set<int> st;
+				if (!f.masked) st.insert(1002);
+				if (f.rsv != 0) st.insert(1002);
+				if (reserved) st.insert(1002);
+				if (control && !f.fin) st.insert(1002);
+				if (control && f.payload.size() > 125) st.insert(1002);
+				if (f.opcode == 8 && st.empty()) {
+					if (f.payload.size() == 1) st.insert(1002);
+					if (f.payload.size() >= 2) {
+						int code = ((unsigned char)f.payload[0] << 8) | (unsigned char)f.payload[1];
+						bool okcode = (code >= 1000 && code <= 1003) || (code >= 1007 && code <= 1011) || (code >= 3000 && code <= 4999);
+						if (code >= 1012 && code <= 1014) okcode = true; // registered later than RFC 6455: not judged
+						if (!okcode) st.insert(1002);
+						if (f.payload.size() > 2 && !utf8_ok(f.payload.substr(2))) st.insert(1007);
+						if (code >= 1012 && code <= 1014) st.insert(-1);
+					}
+					if (st.empty()) st.insert(-1); // a valid close is answered with a close frame of whatever status
+				}
+				if (f.payload.size() > max_message_size) { st.clear(); st.insert(-1); }
+				if (!violation && f.opcode != 8 && (f.opcode == 2 || !f.fin || f.opcode == 0)) st.insert(-1); // fragmented/binary data: processed or refused with a close frame
+				if (!violation && f.opcode == 1 && f.fin) { Value tmpv; if (!js::parse(f.payload, tmpv) || f.payload.size() > max_message_size) st.insert(-1); }
+				if (!st.empty() && !c.expect_close_armed) { c.expect_close = st; c.expect_close_armed = true; }
+				if (!violation && f.opcode == 9 && st.empty()) c.expect_pongs.push_back(f.payload);
 				if (violation) { evs.push_back(e); vd.labels.insert("ws:protocol-violation"); }
 				else if (f.opcode == 8) { evs.push_back(e); vd.labels.insert("ws:close-frame"); }
 				else if (f.opcode == 9 || f.opcode == 0xA) vd.labels.insert("ws:ping-pong");
@@ -756,6 +813,72 @@ public:
 		}
 	}
 
+	static bool utf8_ok(const std::string &s)
+	{
+		size_t i = 0, n = s.size();
+		while (i < n) {
+			unsigned char c = s[i];
+			if (c < 0x80) { i++; continue; }
+			int len; uint32_t cp;
+			if (c >= 0xC2 && c <= 0xDF) { len = 2; cp = c & 0x1F; } else if (c >= 0xE0 && c <= 0xEF) { len = 3; cp = c & 0x0F; } else if (c >= 0xF0 && c <= 0xF4) { len = 4; cp = c & 0x07; } else return false;
+			if (i + len > n) return false;
+			for (int k = 1; k < len; k++) { unsigned char d = s[i + k]; if ((d & 0xC0) != 0x80) return false; cp = (cp << 6) | (d & 0x3F); }
+			if ((len == 3 && cp < 0x800) || (len == 4 && cp < 0x10000) || cp > 0x10FFFF || (cp >= 0xD800 && cp <= 0xDFFF)) return false;
+			i += len;
+		}
+		return true;
+	}
+
+	// C12/C13: what the HTTP/WebSocket endpoint itself answers
+	void ws_judge()
+	{
+		simk::Kernel &k = simk::K();
+		for (size_t ci = 0; ci < cc.size(); ci++) {
+			CConn &c = cc[ci];
+			if (!c.ws || c.unchecked) continue;
+			const simk::Conn &kc = k.conns[c.kc];
+			if (!kc.accepted) continue;
+			std::string id = "conn " + std::to_string(ci);
+			if (!c.handshake_valid) {
+				if (c.http_done && c.http.status == 101) vd.add("C13/upgrade-accepted", id + ": 101 for a request that is not a valid WebSocket upgrade");
+				else if (c.http_done && (c.http.status < 400 || c.http.status > 599)) vd.add("C13/status", id + ": status " + std::to_string(c.http.status));
+				if (!c.http_done && !kc.out.empty() && kc.out.compare(0, 5, "HTTP/") != 0) vd.add("C13/garbage-answer", id + ": " + tohex(kc.out.substr(0, 40)));
+				if (!c.hs_truncated && !kc.daemon_closed) vd.add("C13/not-closed", id + ": connection stays open after a request that is not a valid upgrade");
+				if (c.hs_truncated && c.client_ended && !kc.daemon_closed) vd.add("C13/not-closed", id + ": half-sent request, client gone, descriptor still open");
+				continue;
+			}
+			if (!c.http_done) { if (!kc.daemon_closed || !c.client_ended) vd.add("C12/no-upgrade-response", id + ": valid upgrade got no complete response"); continue; }
+			if (c.http.status != 101) { vd.add("C12/upgrade-refused", id + ": status " + std::to_string(c.http.status) + " for a valid upgrade"); continue; }
+			if (c.ctrl_checked == 0 && !c.ws_key.empty()) {
+				if (c.http.header("Sec-WebSocket-Accept") != codec::ws_accept(c.ws_key)) vd.add("C12/accept-digest", id + ": got '" + c.http.header("Sec-WebSocket-Accept") + "' want '" + codec::ws_accept(c.ws_key) + "'");
+				if (folded_eq(c.http.header("Upgrade"), "websocket") == false) vd.add("C12/upgrade-header", id);
+				if (c.http.header("Sec-WebSocket-Protocol") != "jet") vd.add("C12/protocol-header", id + ": '" + c.http.header("Sec-WebSocket-Protocol") + "'");
+			}
+			// control frames received since the last look
+			for (; c.ctrl_checked < c.ctrl.size(); c.ctrl_checked++) {
+				const codec::WsFrame &f = c.ctrl[c.ctrl_checked];
+				if (f.opcode == 0xA) {
+					if (c.expect_pongs.empty()) vd.add("C12/unsolicited-pong", id);
+					else { if (c.expect_pongs.front() != f.payload) vd.add("C12/pong-payload", id + ": pong payload differs from ping payload"); c.expect_pongs.pop_front(); }
+				} else if (f.opcode == 8) {
+					int code = f.payload.size() >= 2 ? (((unsigned char)f.payload[0] << 8) | (unsigned char)f.payload[1]) : 0;
+					if (c.expect_close_armed && !c.expect_close.count(-1) && !c.expect_close.count(code)) {
+						std::string w; for (int x : c.expect_close) w += std::to_string(x) + " ";
+						vd.add("C12/close-status", id + ": close frame with status " + std::to_string(code) + ", expected " + w);
+					}
+					if (!c.expect_close_armed && !c.client_ended && !c.model_dropped) vd.add("C12/unexpected-close-frame", id + ": status " + std::to_string(code));
+					c.expect_close_armed = false; c.expect_close.clear();
+					c.model_dropped = true;
+				} else vd.add("C12/server-opcode", id + ": server sent opcode " + std::to_string(f.opcode));
+			}
+			if (c.expect_close_armed && !c.expect_close.count(-1)) vd.add("C12/no-close-frame", id + ": protocol violation was not answered with a close frame");
+			if (c.expect_close_armed && c.expect_close.count(-1) && kc.daemon_closed) vd.add("C12/closed-without-close-frame", id + ": connection ended without a close frame");
+			if (!c.expect_pongs.empty() && !kc.daemon_closed && !c.client_ended) vd.add("C12/missing-pong", id + ": ping not answered");
+			if (kc.daemon_closed) { c.expect_pongs.clear(); c.expect_close_armed = false; }
+		}
+	}
+	static bool folded_eq(const std::string &a, const std::string &b) { return model::folded(a) == model::folded(b); }
+
 	void replica_update()
 	{
 		// feed every not yet judged message that is a notification for a fetch of that connection
@@ -832,6 +955,7 @@ public:
 			bool should_be_open = !c.client_ended && !c.model_dropped;
 			if (c.faulty && !c.client_ended) continue; // a faulty peer may or may not have been dropped yet
 			if (c.ws && !c.handshake_valid) should_be_open = false;
+			if (c.ws && c.hs_truncated && !c.client_ended) continue;
 			if (should_be_open && kc.daemon_closed) vd.add("model/healthy-connection-dropped", "conn " + std::to_string(ci) + " was closed by the daemon although it did nothing wrong");
 			if (!should_be_open && !kc.daemon_closed && kc.accepted) vd.add("model/connection-not-released", "conn " + std::to_string(ci) + " ended or violated the protocol but its descriptor is still open");
 		}
@@ -843,8 +967,9 @@ public:
 		for (size_t ci = 0; ci < cc.size(); ci++) decode((int)ci);
 		for (size_t ci = 0; ci < cc.size(); ci++) {
 			CConn &c = cc[ci];
-			if (!c.model_connected && simk::K().conns[c.kc].accepted) { c.model_connected = true; m.connect((int)ci, c.local); if (have_alt) alt_model.connect((int)ci, c.local); }
+			if (!c.model_connected && simk::K().conns[c.kc].accepted && (!c.ws || c.handshake_valid)) { c.model_connected = true; m.connect((int)ci, c.local); if (have_alt) alt_model.connect((int)ci, c.local); }
 		}
+		if (opt.ws_check) ws_judge();
 		if (opt.replica_check) replica_update();
 		if (opt.model_check) {
 			// a faulty peer may be dropped by the daemon at any time (its response could not be written, its socket failed):
@@ -943,6 +1068,7 @@ public:
 		}
 		for (size_t i = next_op; i < j; i++) if (sc.ops[i].kind == BATCH && j - next_op > 1) { bool hasadv = false; for (size_t q = next_op; q < j; q++) if (sc.ops[q].kind == ADVANCE) hasadv = true; if (hasadv) { j = next_op + 1; break; } }
 		std::vector<ModelEvent> evs;
+		step_single = (j - next_op == 1) && sc.ops[next_op].kind != BATCH;
 		for (size_t i = next_op; i < j; i++) {
 			const Op &op = sc.ops[i];
 			if (op.kind != BATCH) { do_op(op, evs); continue; }
@@ -999,6 +1125,7 @@ public:
 	bool on_idle()
 	{
 		simk::Kernel &k = simk::K();
+		if (!pending_tails.empty()) { auto t = pending_tails.front(); pending_tails.pop_front(); k.send(t.first, t.second); return true; }
 		switch (phase) {
 		case START:
 			take_baseline();
